@@ -25,7 +25,8 @@ LEAN_NAMESPACES = ['MpycV.C13', 'MpycV.C13Src']
 REQUIRED_THEOREMS = ['shares_uniform', 'shares_uniform_le', 'view_independent_of_secret', 'view_probability',
                      'shares_uniform_modP', 'coefficients_determined',
                      # source tie (PropsGen/C13Src.lean, generated from the current thresha.py)
-                     'random_split_src_eq', 'random_split_src_entry', 'random_split_src_refuses']
+                     'random_split_src_eq', 'random_split_src_entry', 'random_split_src_refuses',
+                     'random_split_src_dichotomy']
 RULE = ('case = (field, t, m, secret(s), complete enumeration of the dealer randomness, coalition of <= t parties); '
         'fields GF(3), GF(5), GF(7), GF(2^2), GF(2^3), GF(3^2); t in 1..2 (and t = 0: no randomness drawn), all m with '
         't < m <= min(|F|-1, 5); every secret of the field; every coalition A with |A| <= t; batches of two secrets for '
